@@ -50,6 +50,9 @@ def configs(tier):
             out.append({"family": fam, "pool": pool, "K": K})
     # unlink when a joining link names a further vertex (attached through add_vertex / add_to_link)
     out.append({"family": "unlink", "pool": ["DE", "UE"], "K": K, "third_end": True})
+    # ... and end assignment on such a link: only the assigned end changes, the further vertex stays named
+    out.append({"family": "set_v1", "pool": ["DE", "UE"], "K": K, "third_end": True})
+    out.append({"family": "set_v2", "pool": ["DE", "UE"], "K": K, "third_end": True})
     # dontdup with three pool links: the two vertices can list parallel links in different orders and have
     # link lists of different lengths (which joining link is handed back)
     out.append({"family": "link_directed", "pool": ["DE", "UE", "DE"], "K": 3, "dontdup_only": True})
